@@ -23,6 +23,8 @@ type Verifier struct {
 	ST       *sortTable
 	Assumed  map[string]bool // callees used with the default (havoc, assumed no-panic) contract
 	ContractUsed map[string]bool // non-extern contracts applied at call sites
+	PropID       string          // the property being checked (scopes clauses labelled [Cxx:...])
+	ForeignClauses map[string]bool
 	AssumeFrames []string        // per property: callees (substring of the key) assumed to modify nothing that existed before the call
 	FrameAssumed map[string]bool
 	frameContracts map[string]*FuncContract
@@ -46,7 +48,7 @@ type Verifier struct {
 }
 
 func newVerifier(P *Program, C *Contracts) *Verifier {
-	return &Verifier{P: P, C: C, ST: newSortTable(), Assumed: map[string]bool{}, ContractUsed: map[string]bool{}, FrameAssumed: map[string]bool{}, frameContracts: map[string]*FuncContract{}, ExternU: map[string]bool{},
+	return &Verifier{P: P, C: C, ST: newSortTable(), Assumed: map[string]bool{}, ContractUsed: map[string]bool{}, ForeignClauses: map[string]bool{}, FrameAssumed: map[string]bool{}, frameContracts: map[string]*FuncContract{}, ExternU: map[string]bool{},
 		globals: map[*ssa.Global]string{}, strConst: map[string]string{"": "str_empty"}, ufDecl: map[string]bool{}, GlobalsUsed: map[string]bool{}, autoOff: map[string]bool{}, TypeInvUsed: map[string]bool{}}
 }
 
